@@ -21,18 +21,16 @@ structure Live (s : State) (cn : ConnId) : Prop where
   regA : (s.ctx (cliOf s cn)).peers (.name (srvOf s cn)) = some cn
   regP : (s.ctx (srvOf s cn)).peers (.alias cn) = some cn
 
-def pendOf (cs : CtxSt) (k : Key) : P :=
-  match cs.byKey k with
-  | none => .none
-  | some pid =>
-    match cs.pobj pid with
-    | none => .none
-    | some po => if po.sub then .sub po.cancelled else .unsub (decide (po.rcvs ≠ []))
+/-- the pending-request object registered for key `k` -/
+def poOf (cs : CtxSt) (k : Key) : Option PObj := (cs.byKey k).bind cs.pobj
 
-def curOf (cs : CtxSt) (k : Key) : Option ReqId :=
-  match cs.byKey k with
-  | none => none
-  | some pid => (cs.pobj pid).map (·.cur)
+def pendP : Option PObj → P
+  | none => .none
+  | some po => if po.sub then .sub po.cancelled else .unsub (decide (po.rcvs ≠ []))
+
+def pendOf (cs : CtxSt) (k : Key) : P := pendP (poOf cs k)
+
+def curOf (cs : CtxSt) (k : Key) : Option ReqId := (poOf cs k).map (·.cur)
 
 /-- the stage of the request handler (`_handle_subscription_request`) for request `id` of peer `src` -/
 def hdlTok (src : Peer) (id : ReqId) : List MOp → Option T
@@ -54,30 +52,65 @@ def relevCb (cn : ConnId) (ob : Obj) (sg : Sg) (cur : Option ReqId) : Cb → Opt
   | .smSend d m => if d = .alias cn then relev ob sg cur m else none
   | _ => none
 
+/-- what the abstraction reads off a state, for one connection / object / signal -/
+structure View where
+  rs : List Peer          -- `_remote_subscriptions[ob.sg]` of the publisher context
+  ls : List Rcv           -- `_local_subscriptions[key]` of the subscribing context
+  obj : ObjSt             -- `_rpc_object_map[ob]` of the publisher context
+  po : Option PObj        -- the pending request of the subscribing context for the key
+  psp : List MOp          -- program of the publisher context's socket thread
+  psa : List MOp          -- program of the subscribing context's socket thread
+  lq : List Cb            -- event-loop queue of the publisher context
+  ib : List Msg           -- what the subscribing context has not yet read from the connection
+
+def viewOf (s : State) (cn : ConnId) (ob : Obj) (sg : Sg) : View :=
+  { rs := (s.ctx (srvOf s cn)).rsubs ⟨ob, sg⟩,
+    ls := (s.ctx (cliOf s cn)).lsubs (keyOf s cn ob sg),
+    obj := (s.ctx (srvOf s cn)).objs ob,
+    po := poOf (s.ctx (cliOf s cn)) (keyOf s cn ob sg),
+    psp := s.prog (.sock (srvOf s cn)),
+    psa := s.prog (.sock (cliOf s cn)),
+    lq := (s.ctx (srvOf s cn)).loopQ,
+    ib := ((s.conn cn).half true).inbox }
+
 /-- the channel publisher → subscriber: what the subscriber has not read yet, then what the publisher's event loop
 has not sent yet -/
-def dOf (s : State) (cn : ConnId) (ob : Obj) (sg : Sg) (cur : Option ReqId) : List DTok :=
-  ((s.conn cn).half true).inbox.filterMap (relev ob sg cur) ++
-  (s.ctx (srvOf s cn)).loopQ.filterMap (relevCb cn ob sg cur)
+def dV (cn : ConnId) (ob : Obj) (sg : Sg) (cur : Option ReqId) (v : View) : List DTok :=
+  v.ib.filterMap (relev ob sg cur) ++ v.lq.filterMap (relevCb cn ob sg cur)
 
 def DTok.isRep : DTok → Bool
   | .Rep _ => true
   | .N => false
+
+/-- where request `id` is, if it is not lost -/
+def tokV (cn : ConnId) (ob : Obj) (sg : Sg) (v : View) (id : ReqId) : T :=
+  match hdlTok (.alias cn) id v.psp with
+  | some t => t
+  | none =>
+    if (dV cn ob sg (some id) v).any DTok.isRep then .inD
+    else if MOp.handleReply id true ∈ v.psa then .hr true
+    else .req
+
+/-- the abstract state of a view, given the two things that are not functions of the state -/
+def absV (cn : ConnId) (k : Key) (v : View) (rm : Rm) (failed : Bool) : AS :=
+  let cur := v.po.map (·.cur)
+  { R := decide (Peer.alias cn ∈ v.rs),
+    A := decide (v.ls ≠ []),
+    obj := v.obj,
+    rm := rm,
+    pend := pendP v.po,
+    tok := (match cur with
+      | none => .none
+      | some id => if failed then .hr false else tokV cn k.ob k.sg v id),
+    D := dV cn k.ob k.sg cur v,
+    sr := decide (MOp.sigRemoved k ∈ v.psa),
+    wp := decide (MOp.peerRemoved k.pc ∈ v.psa ∧ MOp.popPeer k.pc ∉ v.psa) }
 
 /-- request `id` is lost: an error reply for it is about to be handled, or it is registered on another connection (which
 is being closed) -/
 def FailCar (s : State) (cn : ConnId) (id : ReqId) : Prop :=
   (∃ th : Th, th.ctx = cliOf s cn ∧ MOp.handleReply id false ∈ s.prog th) ∨
   (∃ n', n' ≠ cn ∧ ((s.conn n').half true).owner = cliOf s cn ∧ id ∈ ((s.conn n').half true).pend)
-
-/-- where request `id` is, if it is not lost -/
-def tokFn (s : State) (cn : ConnId) (ob : Obj) (sg : Sg) (id : ReqId) : T :=
-  match hdlTok (.alias cn) id (s.prog (.sock (srvOf s cn))) with
-  | some t => t
-  | none =>
-    if (dOf s cn ob sg (some id)).any DTok.isRep then .inD
-    else if MOp.handleReply id true ∈ s.prog (.sock (cliOf s cn)) then .hr true
-    else .req
 
 /-- what the program of a thread of the publisher context says about the removal of `ob` -/
 def remPhase (cn : ConnId) (ob : Obj) (sg : Sg) : List MOp → Rm
@@ -98,23 +131,8 @@ structure RmRel (s : State) (cn : ConnId) (ob : Obj) (sg : Sg) (rm : Rm) : Prop 
   all : ∀ th : Th, th.ctx = srvOf s cn → remPhase cn ob sg (s.prog th) ≠ .none → remPhase cn ob sg (s.prog th) = rm
   ex : rm ≠ .none → ∃ th : Th, th.ctx = srvOf s cn ∧ remPhase cn ob sg (s.prog th) = rm
 
-/-- the abstract state, given the two things that are not functions of the state -/
 def absOf (s : State) (cn : ConnId) (ob : Obj) (sg : Sg) (rm : Rm) (failed : Bool) : AS :=
-  let a := cliOf s cn
-  let p := srvOf s cn
-  let k := keyOf s cn ob sg
-  let cur := curOf (s.ctx a) k
-  { R := decide (Peer.alias cn ∈ (s.ctx p).rsubs ⟨ob, sg⟩),
-    A := decide ((s.ctx a).lsubs k ≠ []),
-    obj := (s.ctx p).objs ob,
-    rm := rm,
-    pend := pendOf (s.ctx a) k,
-    tok := (match cur with
-      | none => .none
-      | some id => if failed then .hr false else tokFn s cn ob sg id),
-    D := dOf s cn ob sg cur,
-    sr := decide (MOp.sigRemoved k ∈ s.prog (.sock a)),
-    wp := decide (MOp.peerRemoved (.name p) ∈ s.prog (.sock a) ∧ MOp.popPeer (.name p) ∉ s.prog (.sock a)) }
+  absV cn (keyOf s cn ob sg) (viewOf s cn ob sg) rm failed
 
 /-- `x` is the abstraction of `s` for (`cn`, `ob`, `sg`) -/
 def Sim (s : State) (cn : ConnId) (ob : Obj) (sg : Sg) (x : AS) : Prop :=
